@@ -159,7 +159,7 @@ Definition sample_all (g : dag) (deps : list nat) : ptree memo :=
 
 (* ---- requirements: a condition over the nodes bound to its names when the statement ran *)
 Inductive rexpr :=
-| RNode (i : nat) | RConst (z : Z)
+| RNode (i : nat) | RConst (v : val)
 | RBin (o : opcode) (a b : rexpr) | RUn (o : opcode) (a : rexpr).
 Inductive cond :=
 | CTrue
@@ -170,7 +170,7 @@ Record req := mkReq { rprob : Q; rcond : cond }.
 Fixpoint reval (m : memo) (e : rexpr) : val :=
   match e with
   | RNode i => match get m i with Some v => v | None => VErr end
-  | RConst z => VZ z
+  | RConst v => v
   | RBin o a b => apply_op o [reval m a; reval m b]
   | RUn o a => apply_op o [reval m a]
   end.
